@@ -5,6 +5,7 @@
 import Wormhole.Tie.Srv
 import Wormhole.Tie.SrvStmts
 import Wormhole.Tie.SrvWs
+import Wormhole.Tie.SrvSumm
 
 namespace Wormhole.Tie
 open Wormhole Wormhole.PySrv
